@@ -461,7 +461,7 @@ def run_check(plug: Plugin, tier: str, seed: int, level_note=""):
             "samples": samples or [plain(cases[0])] if cases else [],
             "corpus_cases": ncorpus,
             "exhaustive_block_cases": len(exh),
-            "exhaustive": False,
+            "exhaustive": bool(getattr(plug, "exhaustive_flag", False)) and len(exh) > 0,
             "invalid_cases_skipped": invalid,
             "disagreements_checked": evaluations,
             "model_impl_disagreements": len(diff),
